@@ -31,9 +31,9 @@ Section SPEC.
 
   Definition header_spec (o : vopts) (h : hdr) : bool :=
     if h_found h then
-      match h_decoded h, h_schema h with
-      | Some v, Some s => satb rc rm fo (md_hdr o) s v
-      | _, _ => false
+      match h_schema h with
+      | None => true               (* described by `content`: no header schema to satisfy *)
+      | Some s => match h_decoded h with Some v => satb rc rm fo (md_hdr o) s v | None => false end
       end
     else negb (h_required h).
 
@@ -62,7 +62,7 @@ Section SPEC.
   (* class 1: every header of the selected response has a schema (is not defined by `content`) *)
   Definition g_hdr (o : vopts) (h : hdr) : bool :=
     match h_schema h with
-    | None => false
+    | None => true
     | Some s => match h_decoded h with Some v => negb (h_found h) || sv_guard (md_hdr o) false s v | None => true end
     end.
   Definition g_media (o : vopts) (body : option json) (m : media) : bool :=
